@@ -77,6 +77,22 @@ def run(ctx: Ctx):
                 if g2 != want:
                     ctx.violation(dict(base, check="item-constructor-form", form=name, got=g2[:40].hex(), want=want[:40].hex(),
                                        what=f"Item{f}({form!r}) encodes to {g2[:24].hex()} instead of {want[:24].hex()}"))
+                    continue
+                if isinstance(form, list):
+                    # the item HOLDS the value: what the caller does with its list afterwards does not reach into the item
+                    try:
+                        src = list(form)
+                        it2 = e5bind.icls(f)(src)
+                        src[0] = 0 if f != "BOOLEAN" else (not src[0])
+                        src.append(src[0])
+                        g3 = bytes(it2.encode())
+                    except Exception as exc:  # noqa: BLE001
+                        ctx.violation(dict(base, check="item-holds-value", error=type(exc).__name__,
+                                           what=f"Item{f} built from a list raised {exc!r} after the caller changed that list"))
+                        continue
+                    if g3 != want:
+                        ctx.violation(dict(base, check="item-holds-value", got=g3[:40].hex(), want=want[:40].hex(),
+                                           what=f"Item{f}({form!r}) encodes to {g3[:24].hex()} after the caller changed its own list (was {want[:24].hex()})"))
     for v in nlb:
         data, canon = bytes(v["bytes"]), bytes(v["canon"])
         for tag, d, c in (("outer", data, canon), ("nested", bytes(v["nested"]), b"\x01\x01" + canon)):
